@@ -33,6 +33,10 @@ var (
 	// to be committed in the current term. The membership change may be submitted once a log entry
 	// has been committed this term.
 	ErrNoCommitThisTerm = errors.New("a log entry has not been committed in this term")
+
+	// ErrNoVoters is returned when a membership change would leave the cluster without
+	// a voting member. Such a configuration could never be committed or changed again.
+	ErrNoVoters = errors.New("a membership change may not leave the cluster without a voting member")
 )
 
 // The default chunk size for InstallSnapshot RPCs.
@@ -665,6 +669,12 @@ func (r *Raft) AddServer(
 	configuration.Members[id] = address
 	configuration.IsVoter[id] = isVoter
 
+	// The last voting member may not be demoted.
+	if !configuration.hasVoter() {
+		respond(configurationFuture.responseCh, Configuration{}, ErrNoVoters)
+		return configurationFuture
+	}
+
 	// Add the configuration to the log.
 	r.appendConfiguration(&configuration)
 
@@ -728,6 +738,12 @@ func (r *Raft) RemoveServer(id string, timeout time.Duration) Future[Configurati
 	configuration := r.configuration.Clone()
 	delete(configuration.Members, id)
 	delete(configuration.IsVoter, id)
+
+	// The last voting member may not be removed.
+	if !configuration.hasVoter() {
+		respond(configurationFuture.responseCh, Configuration{}, ErrNoVoters)
+		return configurationFuture
+	}
 
 	// Add the configuration to the log. It is in force from here on, as it is when a node
 	// is added: the removed node does not count toward a quorum anymore, and no other membership
